@@ -154,6 +154,7 @@ type Hist struct {
 	Logs    []*LogEvt
 	Jitters []*JitterEvt
 	Stalls  []StallEvt
+	Attempts []*AttemptEvt
 	Viol    []Violation
 
 	// event log
@@ -161,6 +162,12 @@ type Hist struct {
 	keepAll bool
 	hash    uint64
 	nlines  int
+}
+
+type AttemptEvt struct {
+	GID  uint64
+	T    time.Duration
+	Step uint64
 }
 
 type StallEvt struct {
